@@ -1,0 +1,14 @@
+//go:build verif
+
+package peer
+
+import "fmt"
+
+// VerifKeepaliveTimeout makes the manager treat conn as a peer that stopped
+// answering, with exactly the two steps keepaliveLoop takes on a timeout:
+// close the connection, then report the disconnect. Fault injection for the
+// verification harness; not compiled without the verif build tag.
+func (m *Manager) VerifKeepaliveTimeout(conn *Connection) {
+	conn.Close()
+	m.handleDisconnect(conn, fmt.Errorf("keepalive timeout"))
+}
